@@ -72,6 +72,42 @@ var skModules = []skModule{
 			"x/iro/types/bonding_curve.go", "x/iro/types/liquidity.go", "x/iro/types/vesting.go", "x/iro/types/plan.go",
 		}},
 	}},
+	// --- anchor functions of the M-Core / M-GB / ante properties that the older generators (Gen/Core,
+	// Gen/GB, Gen/Guards) do not list: store accessors, invariants, proposal handlers, param updates
+	{"CoreX", []skGroup{
+		{"ra", []string{
+			"x/rollapp/keeper/block_height_to_finalization_queue.go", "x/rollapp/keeper/invariants.go",
+			"x/rollapp/keeper/latest_state_info_index.go", "x/rollapp/keeper/latest_finalized_state_index.go",
+			"x/rollapp/keeper/grpc_query_state_info.go", "x/rollapp/keeper/liveness.go",
+		}},
+		{"rat", []string{"x/rollapp/types/liveness.go", "x/rollapp/types/state_info.go"}},
+		{"sq", []string{
+			"x/sequencer/keeper/invariants.go", "x/sequencer/keeper/get_and_set.go", "x/sequencer/keeper/msg_server_update.go",
+			"x/sequencer/keeper/msg_server_update_reward_address.go", "x/sequencer/keeper/msg_server_update_whitelisted_relayers.go",
+		}},
+	}},
+	{"Auth", []skGroup{
+		{"sqp", []string{"x/sequencer/proposal_handler.go"}},
+		{"sqk", []string{"x/sequencer/keeper/msg_server_update_params.go"}},
+		{"strp", []string{"x/streamer/proposal_handler.go"}},
+		{"dnp", []string{"x/dymns/proposal_handler.go"}},
+		{"dnk", []string{"x/dymns/keeper/msg_server_update_params.go", "x/dymns/keeper/proposal.go"}},
+		{"inc", []string{"x/incentives/keeper/msg_server.go"}},
+		{"lc", []string{"x/lightclient/keeper/msg_server.go"}},
+		{"rak", []string{
+			"x/rollapp/keeper/msg_server_mark_obsolete_rollapps.go", "x/rollapp/keeper/msg_server_transfer_ownership.go",
+			"x/rollapp/keeper/msg_server_update_rollapp.go", "x/rollapp/keeper/msg_server_app.go", "x/rollapp/keeper/fraud_proposal.go",
+		}},
+		{"ante", []string{"app/ante/ante.go", "app/ante/reject_msgs.go", "app/ante/cosmos_handler.go"}},
+	}},
+	{"GBX", []skGroup{
+		{"ra", []string{"x/rollapp/keeper/rollapp.go"}},
+		{"dm", []string{"x/denommetadata/keeper/keeper.go", "x/denommetadata/keeper/rollback.go"}},
+	}},
+	{"Det", []skGroup{
+		{"cache", []string{"utils/cache/ordered.go"}},
+		{"lps", []string{"x/eibc/keeper/lps.go"}},
+	}},
 	{"Lockup", []skGroup{
 		{"k", []string{
 			"x/lockup/keeper/lock.go", "x/lockup/keeper/msg_server.go", "x/lockup/keeper/lock_refs.go",
